@@ -117,6 +117,27 @@ Theorem C05_backends_agree : forall (vo : list Z -> list Z) (M : cpmodel) (hints
 Proof. exact backends_agree. Qed.
 Print Assumptions C05_backends_agree.
 
+(* (6') the same with C06's theorems plugged in (SV.C06.EncModel.encode_sound / encode_complete, every constraint
+   kind, under C06's wf_model): only C01's statement about the SAT answer on this clause list remains a premise *)
+Theorem C05_sat_path_c06 : forall (M : cpmodel) (sat_answer : option asg),
+  wf_model M = true ->
+  (forall b, sat_answer = Some b -> models b (fst (encode M))) ->
+  (sat_answer = None -> forall b, ~ models b (fst (encode M))) ->
+  (forall b, sat_answer = Some b -> answer_valid M (project M (dec_asgn (m_vars M) b)))
+  /\ (sat_answer = None -> no_solution M).
+Proof. exact sat_path_with_c06. Qed.
+Print Assumptions C05_sat_path_c06.
+
+Theorem C05_backends_agree_c06 : forall (vo : list Z -> list Z) (M : cpmodel) (hints : list (nat * Z)) (limit : Z)
+    (sat_answer : option asg) (sols : list sol),
+  wf_model M = true -> wf_dfs M = true -> (forall d, incl (vo d) d) -> (forall d, incl d (vo d)) ->
+  (forall b, sat_answer = Some b -> models b (fst (encode M))) ->
+  (sat_answer = None -> forall b, ~ models b (fst (encode M))) ->
+  solve vo M hints limit = RSols sols ->
+  (sols = [] <-> sat_answer = None).
+Proof. exact backends_agree_with_c06. Qed.
+Print Assumptions C05_backends_agree_c06.
+
 (* (7) the PINNED dispatcher (unknown shapes fall through as satisfied) breaks the property *)
 Theorem C05_dfs_pinned_refuted :
   exists (M : cpmodel) (s : sol), wf_dfs M = true /\ solve_pinned vo_id M [] 1 = RSols [s] /\ ~ answer_valid M s.
@@ -141,6 +162,17 @@ Definition ex_y : var := mkVar 1 0 9 true 11.
 (* the module docstring example: all_different([x, y]); x + y == 10 *)
 Definition ex_doc : cpmodel :=
   mkModel [ex_x; ex_y] [CAllDiff [ex_x; ex_y]; CLin (EAdd (EVar ex_x) (EVar ex_y)) (EConst 10) false] 21.
+
+(* the value orders used by the harness (and their reverse) are duplicate-free listings of the domain *)
+Example C05_nonvacuous_vo :
+  (forall d, incl (vo_id d) d) /\ (forall d, incl d (vo_id d)) /\ (forall d, NoDup d -> NoDup (vo_id d))
+  /\ (forall d, incl (vo_rev d) d) /\ (forall d, incl d (vo_rev d)) /\ (forall d, NoDup d -> NoDup (vo_rev d)).
+Proof.
+  unfold vo_id, vo_rev. repeat split; intros d; try apply incl_refl; try tauto.
+  - intros x H. apply in_rev. exact H.
+  - intros x H. apply in_rev in H. exact H.
+  - apply NoDup_rev.
+Qed.
 
 Example C05_nonvacuous_wf : wf_dfs ex_doc = true.
 Proof. vm_compute. reflexivity. Qed.
